@@ -256,7 +256,9 @@ impl BreakerBase {
     /// Return true only if current goroutine successfully accomplished the transformation.
     pub fn from_open_to_half_open(&self, ctx: &EntryContext) -> bool {
         let mut state = self.state.lock().unwrap();
-        if *state == State::Open {
+        // the retry deadline is tested again under the state lock: the caller's own test may date from
+        // before another thread's complete (failed) probe cycle, which re-opened the breaker
+        if *state == State::Open && self.retry_timeout_arrived() {
             *state = State::HalfOpen;
             let listeners = state_change_listeners().lock().unwrap();
             for listener in &*listeners {
